@@ -14,7 +14,10 @@
   The model follows /repo with the fixes /verif/fixes/C08-*.diff applied:
     * `dec` has no receiver argument; the Go `ReadFrom` methods decode *into* an existing
       object, which `decInto` models — and proves irrelevant for every lattigo format;
-    * fixed-width blocks are read with read-full semantics (`io.ReadFull`, fix C08-B/C);
+    * fixed-width blocks are read with read-full semantics (`io.ReadFull`, fix C08-B/C), and the
+      result does not depend on the size of the reader's buffer (fixes C08-R, C08-T; probes
+      `reader_size`); a `buffer.Buffer` is as large as the LENGTH of its backing slice
+      (fix C08-S; probes `window_write`);
     * running out of input is `none` (an error; fix C08-A removed the unbounded recursion,
       C08-H/I the index panics); a presence byte other than 0/1 is `none` (fix C08-I3).
   The receiver-dependent behaviour of the Go decoders (state of the object decoded INTO
